@@ -29,6 +29,17 @@ pub struct C14Case {
     /// consecutive issuances alternate between the two serialisation formats
     #[serde(default)]
     pub alternate_format: bool,
+    /// 0: AllLevels every time (every node draws a salt); 1: issuances rotate through AllLevels /
+    /// TopLevel / NoSDClaims; 2: the Custom path list `custom[k]` of the claims used
+    #[serde(default)]
+    pub strat_mode: u8,
+    /// Custom path lists, one per entry of `claims` (used when strat_mode == 2)
+    #[serde(default)]
+    pub custom: Vec<Vec<String>>,
+    /// 0: no holder key; 1: the same holder key in every issuance; 2: issuances rotate through
+    /// none / EC key / Ed25519 key
+    #[serde(default)]
+    pub holder_mode: u8,
 }
 
 fn default_alg() -> Alg {
@@ -87,6 +98,8 @@ pub fn check(case: &C14Case, st: &mut Stats) -> Verdict {
     if case.alternate_format {
         st.label("format=alternating");
     }
+    st.label(["strategy=AllLevels", "strategy=rotating", "strategy=Custom"][(case.strat_mode as usize).min(2)]);
+    st.label(["holder_key=none", "holder_key=same_every_time", "holder_key=rotating"][(case.holder_mode as usize).min(2)]);
     let shared = Arc::new(Mutex::new(sut::new_issuer(case.alg, KeyId::Primary)));
     st.label(&format!("alg={}", case.alg.name()));
     let case = Arc::new(case.clone());
@@ -100,7 +113,20 @@ pub fn check(case: &C14Case, st: &mut Stats) -> Verdict {
             for i in 0..case.per_thread {
                 let claims = if case.same_claims { &case.claims[0] } else { &case.claims[((t + i) as usize) % case.claims.len()] };
                 let fmt = if case.alternate_format && i % 2 == 1 { case.fmt.other() } else { case.fmt };
-                let spec = IssueSpec { claims: claims.clone(), strat: Strat::AllLevels, decoys: case.decoys, fmt, alg: case.alg, holder: HolderKey::None };
+                let k = if case.same_claims { 0 } else { ((t + i) as usize) % case.claims.len() };
+                let strat = match case.strat_mode {
+                    1 => [Strat::AllLevels, Strat::TopLevel, Strat::NoSD][(i % 3) as usize].clone(),
+                    2 => case.custom.get(k).cloned().map(Strat::Custom).unwrap_or(Strat::AllLevels),
+                    _ => Strat::AllLevels,
+                };
+                let holder = match case.holder_mode {
+                    1 => HolderKey::Ec,
+                    2 => [HolderKey::None, HolderKey::Ec, HolderKey::Ed][((i / 2) % 3) as usize],
+                    _ => HolderKey::None,
+                };
+                // a user claim named cnf would collide with the bound key's claim (outside C01's domain)
+                let holder = if claims.get("cnf").is_some() { HolderKey::None } else { holder };
+                let spec = IssueSpec { claims: claims.clone(), strat, decoys: case.decoys, fmt, alg: case.alg, holder };
                 let out = if case.shared_issuer {
                     let mut g = shared.lock().unwrap_or_else(|e| e.into_inner());
                     sut::issue_with(&mut g, &spec)
